@@ -645,6 +645,10 @@ class Axes(AbstractAxes, list):
         if newax.size != curax.size:
             raise ValueError("set axis: size mismatch.\nExpected: {}, got: {}".format(curax.size, newax.size))
 
+        # as in append: two axes cannot have the same name
+        if newax.name in [ax.name for ax in self if ax is not curax]:
+            raise ValueError("axis name already exist: {}".format(newax.name))
+
         list.__setitem__(self, k, newax)
 
     def insert(self, pos, ax):
